@@ -194,6 +194,47 @@ def variants_job(spec):
     except Exception as ex:  # noqa: BLE001
         f["readonly_inputs_accepted_" + type(ex).__name__] = False
     traces.append(("inputs", "", equiv.merge("C14_Inputs", True, [], [], f)))
+    # a user gradient that writes into ONE buffer it keeps and returns that buffer at every call (and, second variant,
+    # a read-only array it hands out): the run is the run with fresh arrays, a finished result does not change when
+    # the buffer is reused by a later run, and the user's arrays are not written to - with and without a scaler
+    for sc_val in (None, 4.0):
+        kws = dict(kw)
+        if sc_val is not None:
+            kws["gradient_scaler"] = (lambda x, g, lb, ub, v=sc_val: v)
+        lgp = equiv.EvalLog(p.fun, p.grad)
+        rp = lbfgsb.minimize_lbfgsb(x0=p.x0, fun=lgp.fun, jac=lgp.grad, bounds=p.bounds, **kws)
+        buf = np.zeros(p.n)
+        lgb = equiv.EvalLog(p.fun, p.grad)
+
+        def gbuf(x, lgb=lgb, buf=buf):
+            buf[...] = lgb.grad(x)
+            return buf
+
+        fb = {}
+        try:
+            rb1 = lbfgsb.minimize_lbfgsb(x0=p.x0, fun=lgb.fun, jac=gbuf, bounds=p.bounds, **kws)
+            snap = copy.deepcopy(rb1)
+            fb.update({"same_" + k: v for k, v in equiv.result_fields(rp, rb1).items()})
+            lgb2 = equiv.EvalLog(p.fun, p.grad)
+            lbfgsb.minimize_lbfgsb(x0=np.clip(p.x0 + 0.37, p.lb, p.ub), fun=lgb2.fun,
+                                   jac=(lambda x, l2=lgb2, buf=buf: (buf.__setitem__(Ellipsis, l2.grad(x)), buf)[1]), bounds=p.bounds, **kws)
+            fb.update({"earlier_result_unchanged_" + k: v for k, v in equiv.result_fields(snap, rb1).items()})
+        except Exception as ex:  # noqa: BLE001
+            fb["no_exception_" + type(ex).__name__] = False
+        traces.append(("buffered-gradient", f"scaler={sc_val}", equiv.merge("C14_UserBuffer", True, lgp.pts, lgb.pts, fb)))
+        lgr = equiv.EvalLog(p.fun, p.grad)
+
+        def gro(x, lgr=lgr):
+            g = np.array(lgr.grad(x), dtype=float)
+            g.setflags(write=False)
+            return g
+
+        try:
+            rr_ = lbfgsb.minimize_lbfgsb(x0=p.x0, fun=lgr.fun, jac=gro, bounds=p.bounds, **kws)
+            fr_ = {"same_" + k: v for k, v in equiv.result_fields(rp, rr_).items()}
+        except Exception as ex:  # noqa: BLE001
+            fr_ = {"readonly_gradient_accepted_" + type(ex).__name__: False}
+        traces.append(("readonly-gradient", f"scaler={sc_val}", equiv.merge("C14_UserBuffer", True, lgp.pts, lgr.pts, fr_)))
     # logging configuration has no influence on any numerical output
     for iprint in (-1, 0, 1, 99, 101):
         for with_logger in (False, True):
